@@ -90,6 +90,25 @@ Theorem C11_error_matrix_path_independent : forall atan2, atan2_spec atan2 -> fo
 Proof. exact error_path_independent. Qed.
 Print Assumptions C11_error_matrix_path_independent.
 
+(* there and back: from a canonical helix, over a turning angle that is not the half turn, the error matrix returns to itself *)
+Theorem C11_error_matrix_inverse : forall atan2, atan2_spec atan2 -> forall kappa tanl, kappa <> 0 -> forall h p E,
+  canonical kappa h -> off_centre kappa h p -> turn atan2 kappa tanl h p <> PI ->
+  forall i j, (i < 5)%nat -> (j < 5)%nat ->
+  JEJt (Jmove atan2 kappa tanl (move atan2 kappa tanl h p) (h_x h, h_y h, h_z h)) (JEJt (Jmove atan2 kappa tanl h p) E) i j = E i j.
+Proof. exact error_there_and_back. Qed.
+Print Assumptions C11_error_matrix_inverse.
+
+(* the move to the own pivot of a canonical helix has the identity as its Jacobian *)
+Theorem C11_error_matrix_identity : forall atan2, atan2_spec atan2 -> forall kappa tanl, kappa <> 0 -> forall h E,
+  canonical kappa h -> forall i j, (i < 5)%nat -> (j < 5)%nat ->
+  JEJt (Jmove atan2 kappa tanl h (h_x h, h_y h, h_z h)) E i j = E i j.
+Proof.
+  intros atan2 A2 kappa tanl Hk h E Hc i j Hi Hj.
+  rewrite (JEJt_ext _ (fun a b => mid a b) E (Jmove_own_pivot_is_identity atan2 A2 kappa tanl Hk h Hc (canonical_off_own_pivot kappa h Hc)) i j Hi Hj).
+  apply JEJt_identity; assumption.
+Qed.
+Print Assumptions C11_error_matrix_identity.
+
 (* the Jacobian used above is the code's, in closed form *)
 Theorem C11_jacobian_closed_form : forall atan2 dr phi0 kappa dz tanl x0 y0 z0 x1 y1 z1, kappa <> 0 -> forall i j,
   Jcode atan2 dr phi0 kappa dz tanl x0 y0 z0 x1 y1 z1 i j =
